@@ -31,6 +31,12 @@ static void *worker(void *arg) {
             c.obs_len = 0;
             C17_OPS[oi].fn(&c);
         }
+        /* threads 0..5 each own one slot of the shared record */
+        if (t < C17_NREC) {
+            c.arg = C17_OPS[C17_NALL + t].arg;
+            c.obs_len = 0;
+            C17_OPS[C17_NALL + t].fn(&c);
+        }
     }
     free(c.enc);
     free(c.enc2);
@@ -42,6 +48,7 @@ static void *worker(void *arg) {
 int main(int argc, char **argv) {
     vh_init(argc, argv);
     c17_init_inputs();
+    c17_reset_record();
     ROUNDS = vh_thorough ? 200 : 50;
     if (vh_section_begin("free-running") && vh_case()) {
         pid_t pid = fork();
